@@ -115,7 +115,7 @@ const LEAVES: &[(char, &[&str])] = &[
         'S',
         &[
             "x=1;", "%put a;", "%let a=1;", "* c;", "/*c*/", "%m;", "%m(1)", "run;", "%return;", "%local a b;",
-            "%goto l;", "datalines;\n1 2\n;", "* it's c;", "x='a''b' \"c;d\";", "format x $char8. y 8.2;",
+            "%goto l;", "datalines;\n1 2\n;", "cards4;\na;b\n;;;;", "* it's c;", "x='a''b' \"c;d\";", "format x $char8. y 8.2;",
             "%put %str(;) %nrstr(%mend;);",
             // statement-options text directly followed by a quoted literal that contains ';' '=' '/'
             "%* \"it's\" c;", "%* 'a\"b';",
@@ -549,6 +549,26 @@ fn ends_with_bare_call(s: &str) -> bool {
 /// context filled with every chain of depth <= `d` of its hole type; T-level ones inside the
 /// value hosts %let, %put, a double-quoted string, a call argument and an %if expression
 pub fn rare_templates(d: usize) -> Vec<String> {
+    rare_templates_sel(d, false)
+}
+
+/// the rare-context programs whose context is itself a statement (no text-level context lifted
+/// into a host statement): the ones that can leave statement-level state behind
+pub fn rare_statement_programs() -> Vec<String> {
+    let mut v: Vec<String> = rare_templates_sel(1, true)
+        .iter()
+        .map(|x| {
+            let mut s = String::new();
+            apply_filler(x, "", &mut s);
+            s
+        })
+        .collect();
+    v.sort();
+    v.dedup();
+    v
+}
+
+fn rare_templates_sel(d: usize, statements_only: bool) -> Vec<String> {
     let inner = chains(d);
     let mut out = Vec::new();
     const T_HOSTS: &[&str] = &["%let x~=~{};", "%put {}~;", "y=\"{}\";", "%m(~{}~)~;", "%if ~{}~%then~%put a;", "x=~{}~;"];
@@ -562,6 +582,8 @@ pub fn rare_templates(d: usize) -> Vec<String> {
             let t = tmpl.replacen("{}", content, 1);
             if own == 'S' {
                 out.push(t);
+            } else if statements_only {
+                continue;
             } else {
                 for h in T_HOSTS {
                     out.push(h.replacen("{}", &t, 1));
